@@ -696,17 +696,22 @@ def check_marker_for_not_bound(repo, rep, mod):
     that binds the variable to null (or to the default) invisible, so an
     outer binding shows through an inner one."""
     n = 0
-    for ci in mod.classes.values():
-        m = ci.methods.get('get_data')
-        if m is None:
-            continue
-        m2 = norm.inline_tail_calls(repo, m)
+    cands = [(ci, m) for ci in mod.classes.values()
+             for m in [ci.methods.get('get_data')] if m is not None]
+    # ... and helpers the walk was moved into
+    for f in mod.functions.values():
+        if f.name != 'get_data' and f.parent_func is None and any(
+                isinstance(c.func, ast.Attribute) and
+                c.func.attr == 'get_data' for c in model.calls_in(f.node)):
+            cands.append((f.cls, f))
+    for ci, m in cands:
+        m2 = norm.inline_tail_calls(repo, m) if ci is not None else m
         ps = set(m2.params())
         for c in model.calls_in(m2.node):
             if not (isinstance(c.func, ast.Attribute) and
                     c.func.attr == 'get_data'):
                 continue
-            if isinstance(c.func.value, ast.Name) and \
+            if ci is not None and isinstance(c.func.value, ast.Name) and \
                     c.func.value.id == m2.params()[0]:
                 continue
             par = getattr(c, '_parent', None)
@@ -748,11 +753,11 @@ def check_marker_for_not_bound(repo, rep, mod):
                 'be a private marker (utils.NO_VALUE) on both sides, '
                 'otherwise a layer that binds the variable to null / to the '
                 'caller\'s default is skipped and an outer binding shows '
-                'through' % (ci.node.name, model.norm(probe) if probe
+                'through' % (ci.node.name if ci is not None else m.name, model.norm(probe) if probe
                              is not None else 'None (implicit)',
                              model.norm(marker)),
                 loc=mod.loc(c), construct=model.norm(par).split('\n')[0])
-    rep.floor('layer probes in get_data', n, 3)
+    rep.floor('layer probes in get_data', n, 2)
 
 
 def check_child_of_self(repo, rep, mod):
